@@ -219,6 +219,7 @@ def has_complement(ast, Surface):
 def judge(tree, spelling, form, cells=None):
     """Returns (problem or None, card text, n assignments)."""
     cx = subject()
+    conv.trim_library_caches()
     Surface = cx['Surface']
     cells = cells or REF_CELLS
     text = render(tree, spelling)
@@ -346,9 +347,8 @@ def extra(tier, seed, stats):
     trees = list(enumerate(enum_trees(leaves, max_leaves)))
     nproc = min(16, os.cpu_count() or 1)
     chunks = [(trees[k::nproc * 4], n_spell) for k in range(nproc * 4)]
-    ctx = multiprocessing.get_context('fork')
-    with ctx.Pool(nproc) as pool:
-        results = pool.map(_enum_worker, chunks, chunksize=1)
+    from ..runner import pmap
+    results = pmap(_enum_worker, chunks, nproc)
     found = {}
     for evals, nontriv, bad, samples in results:
         stats.counts['extra_evaluations'] += evals
